@@ -116,7 +116,7 @@ class SqlModel:
         args = [c.args[0]]
       elif last.startswith('_') and not last.startswith('__') and d in (last, f'self.{last}'):
         # a private wrapper handed a statement (the rollback wrapper, whatever it is called)
-        args = [a for a in c.args if self.eval(a, c) is not None]
+        args = [a for a in c.args if self.eval(a, c) is not None] or [a for a in c.args if isinstance(a, ast.Name)][-1:]
       else:
         continue
       if not args:
